@@ -50,11 +50,11 @@ PROPS = {
                       'built_in_comparison.rs::bip_greater_than', 'built_in_comparison.rs::bip_greater_than_or_equal',
                       'substitution_set.rs::get_constant', 'substitution_set.rs::get_ground_term'],
         'oracles': {'*': 'c14_compare'},
-        'bounded': [('c14_compare', 'integer/float arms (the exec cast `i as f64` is unspecified in Verus): 2815 operand pairs over extreme integers, -0.0, fractions, atoms, non-constants and variable chains')],
+        'bounded': [('c14_compare', 'all arms against Rust\'s own comparison of the converted operands (the proof of the integer/float arms is relative to the uninterpreted cast value i2f): 2815 operand pairs over extreme integers, -0.0, fractions, atoms, non-constants and variable chains')],
         'not_covered': [
             "'at most once' is the more_solutions flag of next_solution_bip (RefCell solver node): not covered",
             'float/float arms are proved under the axiom that IEEE comparison is a function of its operands (obeys_eq_spec / obeys_partial_cmp_spec for f64)',
-            'integer/float arms: the exec cast `i as f64` is unspecified in Verus and a Kani harness through bip_* does not finish (drop glue of the recursive enum: > 30 min); they are covered by a BOUNDED enumeration only (never counted as proved)',
+            'integer/float arms are proved relative to i2f(i), the uninterpreted value of the cast `i as f64` (rule R12 routes the cast through an external function; trusted T6: the cast is a function of i); that i2f is the IEEE round-to-nearest conversion is not proved - the bounded enumeration compares with Rust\'s own cast',
             'infix parsing of the operators (string level)',
         ],
     },
